@@ -424,9 +424,40 @@ def r07_4_errno(prog, rule):
                              "errno == %d before mapping it to EIO: the process aborts instead of returning -1/EIO" % (bad[0].get("line"), bad[1], want), e["line"])
 
 
+def r07_4_newbuf(prog, rule):
+    """asn_encode_to_new_buffer: `On failure (.buffer) is NULL` (asn_application.h).  Assuming the encoder's result has
+    encoded == -1, every return hands back an object whose buffer field was last set to the constant 0."""
+    f = prog.require("asn_encode_to_new_buffer")
+    site = None
+    for b, i, e in f.calls():
+        if e.get("callee") == "asn_encode_internal" and e.get("use") == "assigned":
+            site = (b, i, e)
+    if site is None:
+        raise AnalysisBroken("asn_encode_to_new_buffer: call of asn_encode_internal not found")
+    b, i, e = site
+    lt = e["useinfo"].get("lhs_tree")
+    text = tree_text(strip_casts(lt)) + ".encoded"
+    subj = assume.Subject("var", var=None, lhs_text=text)
+    resvar = [n[1] for n in walk(lt) if n[0] == "var"][0]
+
+    def classify(rb, ri, re_, env=None):
+        v = (env or {}).get((resvar, "buffer"))
+        return "fail" if v == 0 else "success"
+    hits = assume.explore(f, b, i, subj, -1, classify, origin_callid=e.get("id"), from_entry=False, subject_return_ok=False)
+    hits = [h for h in hits if h[0] == "success"]
+    if hits:
+        kind, rb, ri, re_, path, lost = hits[0]
+        rule.bad(f, "buffer-on-failure", "assuming the encoding failed (%s == -1) the function returns at line %s with a buffer that was not set to "
+                                         "NULL: the caller is documented to get NULL on failure and leaks (or uses) the partial buffer" % (text, re_.get("line")),
+                 e["line"], witness={"path": guards.path_lines(f, list(path))})
+    else:
+        rule.ok(f, "buffer-on-failure", "on a failed encoding the returned buffer is NULL", e["line"])
+
+
 def r07_4(prog, rule):
     from .c15 import must_pass
     r07_4_errno(prog, rule)
+    r07_4_newbuf(prog, rule)
     for name, grows in (("overrun_encoder_cb", False), ("dynamic_encoder_cb", True)):
         f = prog.require(name)
         tests = _overflow_tests(f)
